@@ -880,7 +880,7 @@ def gen_names(c, rng, o, bs):
 
 def gen_comp255(c, rng, o, bs):
     """single components of exactly 255 / 256 bytes"""
-    n = [255, 256, 255, 257][c.idx % 4]
+    n = [255, 256, 257, 300, 255, 256, 257, 1000][c.idx % 8]
     c.dialect = rng.choice(["gnu", "pax", "tf-gnu", "tf-pax"])
     plan = Plan(rng, c.dialect)
     d = plan.fresh(parent=b"")
@@ -1400,6 +1400,11 @@ def expected_tree(entries, o):
                 tree[p] = cp
     except ExpectFail as ex:
         return "fail", str(ex), None
+    # SquashFS stores the name length off by one in 8 bits; since /repo dc48b07 the directory writer refuses names longer than 256 bytes
+    # (before, they were stored and the image was unreadable), so tar2sqfs must fail: non-zero exit, diagnostic, no output file
+    for p in tree:
+        if any(len(comp) > 256 for comp in p.split(b"/")):
+            return "fail", "component-longer-than-256", None
     return "ok", tree, warnings
 
 
@@ -1856,6 +1861,12 @@ def check_A(env, c, work, res):
         res.cnt["expected_refusals"] += 1
         if r.rc == 0:
             P.append(("t2s:accepted-invalid:" + tree, "tar2sqfs exits 0 on an archive it is expected to refuse (%s)" % tree))
+        elif tree == "component-longer-than-256":
+            res.cnt["refused_component_over_256"] += 1
+            if not r.err.strip():
+                P.append(("t2s:refused-without-diagnostic:" + tree, "tar2sqfs refuses a name component longer than 256 bytes without any message"))
+            if img.exists():
+                P.append(("t2s:refused-but-output-left:" + tree, "tar2sqfs refuses a name component longer than 256 bytes but leaves the output file behind"))
         return None
     if c.expect_fail:
         P.append(("oracle:probe-not-refused-by-oracle:" + c.expect_fail, "internal: oracle accepts a case generated as invalid"))
@@ -2545,7 +2556,7 @@ def process_socket(env, idx, seed, name, only=None):
     return res
 
 
-QUICK_PLAN = [("mixed", 110), ("names", 30), ("comp255", 4), ("nums", 28), ("sizes", 12), ("sparse", 32), ("retarget", 20), ("xattr", 16),
+QUICK_PLAN = [("mixed", 110), ("names", 30), ("comp255", 8), ("nums", 28), ("sizes", 12), ("sparse", 32), ("retarget", 20), ("xattr", 16),
               ("probe", 17), ("malformed", 10)]
 SEED_GLOBS = ["lib/tar/test/data/*/*.tar", "bin/tar2sqfs/test/*.tar"]
 
